@@ -549,6 +549,10 @@ func readMessage(tr *tokenReader) (Message, error) {
 			if err != nil {
 				return msg, readError(tr.nextToken, err.Error())
 			}
+			if fdInteger == 0 {
+				// index 0 is the wire format's end-of-message marker
+				return msg, readError(tr.nextToken, "message field index must not be 0")
+			}
 			if _, ok := msg.Fields[uint8(fdInteger)]; ok {
 				return msg, readError(tr.nextToken, "message has duplicate field index %d", fdInteger)
 			}
